@@ -654,10 +654,10 @@ attrsLoop:
 						var appended bool
 						if htmlAttr.Key == "rel" && (addNoFollow || addNoReferrer) {
 
-							if addNoFollow && !strings.Contains(htmlAttr.Val, "nofollow") {
+							if addNoFollow && !hasRelToken(htmlAttr.Val, "nofollow") {
 								htmlAttr.Val += " nofollow"
 							}
-							if addNoReferrer && !strings.Contains(htmlAttr.Val, "noreferrer") {
+							if addNoReferrer && !hasRelToken(htmlAttr.Val, "noreferrer") {
 								htmlAttr.Val += " noreferrer"
 							}
 							noFollowFound = addNoFollow
@@ -667,7 +667,7 @@ attrsLoop:
 						}
 
 						if elementName == "a" && htmlAttr.Key == "target" {
-							if htmlAttr.Val == "_blank" {
+							if asciiEqualFold(htmlAttr.Val, "_blank") {
 								targetBlankFound = true
 							}
 							if addTargetBlank && !targetBlankFound {
@@ -731,7 +731,7 @@ attrsLoop:
 						for _, htmlAttr := range cleanAttrs {
 							var appended bool
 							if htmlAttr.Key == "rel" {
-								if strings.Contains(htmlAttr.Val, "noopener") {
+								if hasRelToken(htmlAttr.Val, "noopener") {
 									noOpenerAdded = true
 									tmpAttrs = append(tmpAttrs, htmlAttr)
 								} else {
@@ -999,6 +999,41 @@ func linkable(elementName string) bool {
 	default:
 		return false
 	}
+}
+
+// hasRelToken returns true if the space separated rel value contains the given
+// link type, compared case-insensitively as browsers do
+func hasRelToken(rel string, token string) bool {
+	isASCIISpace := func(r rune) bool {
+		return r == ' ' || r == '\t' || r == '\n' || r == '\f' || r == '\r'
+	}
+	for _, t := range strings.FieldsFunc(rel, isASCIISpace) {
+		if asciiEqualFold(t, token) {
+			return true
+		}
+	}
+	return false
+}
+
+// asciiEqualFold compares two strings ignoring the case of ASCII letters only,
+// which is how browsers compare link types and the _blank keyword
+func asciiEqualFold(a string, b string) bool {
+	if len(a) != len(b) {
+		return false
+	}
+	for i := 0; i < len(a); i++ {
+		x, y := a[i], b[i]
+		if 'A' <= x && x <= 'Z' {
+			x += 'a' - 'A'
+		}
+		if 'A' <= y && y <= 'Z' {
+			y += 'a' - 'A'
+		}
+		if x != y {
+			return false
+		}
+	}
+	return true
 }
 
 // isVoidElement returns true for the HTML elements that never have a closing
